@@ -1,1 +1,430 @@
-pub fn run_c32(_ctx: &mut rvcore::Ctx) {}
+//! C32: failed runs are retried at most once.
+//!
+//! Every case runs a *real* routinator command (`vrps`, `validate`,
+//! `update`, `server`) as a child process (`rv-server routinator …`, which
+//! replicates /repo/src/main.rs) with zero TALs, a scratch cache directory
+//! and a scripted sequence of run outcomes (`VERIF_RUN_OUTCOMES`, consumed
+//! by the hook at the top of `ValidationReport::process`). Runs are counted
+//! through `VERIF_EVENT_LOG` (`run-start` lines); `VERIF_RUN_LIMIT` is the
+//! watchdog (exit status 99 when run limit + 1 starts).
+
+use std::path::Path;
+use std::process::{Command, Stdio};
+use std::sync::{Arc, Mutex};
+use std::sync::atomic::{AtomicUsize, Ordering};
+use std::time::{Duration, Instant};
+use serde_json::{json, Value};
+use rvcore::Ctx;
+
+/// The commands under test: (name in inputs, uses a collector, is server).
+const COMMANDS: &[(&str, bool, bool)] = &[
+    ("vrps", true, false),
+    ("vrps-n", false, false),
+    ("validate", true, false),
+    ("validate-n", false, false),
+    ("update", true, false),
+    ("server", true, true),
+];
+
+fn command_args(cmd: &str) -> Option<Vec<&'static str>> {
+    Some(match cmd {
+        "vrps" => vec!["vrps", "-o", "/dev/null"],
+        "vrps-n" => vec!["vrps", "-n", "-o", "/dev/null"],
+        "validate" => vec!["validate", "-a", "64496", "-p", "192.0.2.0/24"],
+        "validate-n" => {
+            vec!["validate", "-n", "-a", "64496", "-p", "192.0.2.0/24"]
+        }
+        "update" => vec!["update"],
+        // Foreground server, no listeners, zero refresh: after a successful
+        // run the next one starts at once, so the watchdog bounds the run.
+        "server" => vec!["server", "--refresh", "0"],
+        _ => return None
+    })
+}
+
+#[derive(Clone, Debug)]
+struct Observed {
+    /// Number of `run-start` events.
+    runs: usize,
+    /// Exit status; 99 = watchdog; -1 = killed by signal; -2 = hang.
+    exit: i32,
+    stderr: String,
+}
+
+fn run_child(
+    exe: &Path, cmd: &str, outcomes: &[String], break_at: Option<u64>,
+    limit: u64,
+) -> Result<Observed, String> {
+    let scratch = tempfile::tempdir().map_err(|e| e.to_string())?;
+    let cache = scratch.path().join("cache");
+    let home = scratch.path().join("home");
+    std::fs::create_dir_all(&cache).map_err(|e| e.to_string())?;
+    std::fs::create_dir_all(&home).map_err(|e| e.to_string())?;
+    let log = scratch.path().join("events");
+    let args = command_args(cmd).ok_or("unknown command")?;
+    let mut child = Command::new(exe);
+    child.arg("routinator").arg("--no-rir-tals").arg("--disable-rsync")
+        .arg("-r").arg(&cache)
+        .args(&args)
+        .current_dir(scratch.path())
+        .env("HOME", &home)
+        .env("VERIF_EVENT_LOG", &log)
+        .env("VERIF_RUN_LIMIT", limit.to_string())
+        .env("VERIF_RUN_OUTCOMES", outcomes.join(","))
+        .env_remove("VERIF_KILL_AT")
+        .env_remove("RV_BREAK_SANITIZE")
+        .stdin(Stdio::null()).stdout(Stdio::null())
+        .stderr(Stdio::piped());
+    if let Some(k) = break_at {
+        child.env(
+            "RV_BREAK_SANITIZE",
+            format!("{}:{}", k, cache.join("rrdp").display())
+        );
+    }
+    let mut child = child.spawn().map_err(|e| e.to_string())?;
+    let start = Instant::now();
+    let status = loop {
+        match child.try_wait().map_err(|e| e.to_string())? {
+            Some(status) => break Some(status),
+            None => {
+                if start.elapsed() > Duration::from_secs(60) {
+                    let _ = child.kill();
+                    let _ = child.wait();
+                    break None
+                }
+                std::thread::sleep(Duration::from_millis(2));
+            }
+        }
+    };
+    let mut stderr = String::new();
+    if let Some(mut pipe) = child.stderr.take() {
+        use std::io::Read;
+        let _ = pipe.read_to_string(&mut stderr);
+    }
+    let runs = std::fs::read_to_string(&log).unwrap_or_default()
+        .lines().filter(|l| *l == "run-start").count();
+    let exit = match status {
+        None => -2,
+        Some(status) => status.code().unwrap_or(-1),
+    };
+    if stderr.chars().count() > 600 {
+        let skip = stderr.chars().count() - 600;
+        stderr = stderr.chars().skip(skip).collect();
+    }
+    Ok(Observed { runs, exit, stderr })
+}
+
+/// The outcome run number `i` (0-based) really has: the scripted one (last
+/// item repeating), except that once the harness has removed the RRDP
+/// working directory (at the start of run number `break_at`, 1-based) a
+/// run that was told to proceed fails fatally for real in `run.cleanup()`.
+///
+/// The server's initial run (run 0) does not use the collector and is
+/// therefore not affected.
+fn effective(
+    server: bool, outcomes: &[String], break_at: Option<u64>, i: usize
+) -> String {
+    let scripted = outcomes.get(i).or(outcomes.last())
+        .cloned().unwrap_or_else(|| "ok".into());
+    match break_at {
+        Some(k) if (i as u64) + 1 >= k && scripted == "ok"
+            && !(server && i == 0) => "fatal".into(),
+        _ => scripted
+    }
+}
+
+/// All sequences over {ok, retry, fatal} of length 1..=max.
+fn sequences(max: usize) -> Vec<Vec<&'static str>> {
+    let mut res = Vec::new();
+    let mut level: Vec<Vec<&'static str>> = vec![vec![]];
+    for _ in 0..max {
+        let mut next = Vec::new();
+        for seq in &level {
+            for item in ["ok", "retry", "fatal"] {
+                let mut seq = seq.clone();
+                seq.push(item);
+                next.push(seq);
+            }
+        }
+        res.extend(next.iter().cloned());
+        level = next;
+    }
+    res
+}
+
+fn generate(ctx: &mut Ctx) -> Vec<Value> {
+    let mut res = ctx.corpus("C32");
+    let max = if ctx.search { 5 } else if ctx.quick() { 4 } else { 6 };
+    let seqs = sequences(max);
+    for &(cmd, collector, server) in COMMANDS {
+        // The no-update variants share the code path; enumerate them less
+        // deeply.
+        let cmd_max = if collector { max } else { 3 };
+        for seq in seqs.iter().filter(|s| s.len() <= cmd_max) {
+            let limit = if server { seq.len() as u64 + 3 } else { 6 };
+            res.push(json!({
+                "cmd": cmd, "outcomes": seq, "break_at": Value::Null,
+                "limit": limit
+            }));
+        }
+        // Real failures: sanitize() failing / a proceeding run failing
+        // fatally once the RRDP directory is gone.
+        if collector {
+            let brk_max = if ctx.quick() { 2 } else { 4 };
+            for seq in seqs.iter().filter(|s| s.len() <= brk_max) {
+                for k in 1..=(seq.len() as u64 + 1) {
+                    let limit = if server { seq.len() as u64 + 3 } else { 6 };
+                    res.push(json!({
+                        "cmd": cmd, "outcomes": seq, "break_at": k,
+                        "limit": limit
+                    }));
+                }
+            }
+        }
+    }
+    // A few longer random scripts for the server (seeded).
+    let extra = ctx.budget(40, 400);
+    for _ in 0..extra {
+        let len = ctx.rng.range(5, 12) as usize;
+        let mut seq = Vec::new();
+        for _ in 0..len {
+            // mostly ok so that the loop gets far
+            let item = match ctx.rng.below(10) {
+                0 => "fatal",
+                1 | 2 | 3 => "retry",
+                _ => "ok",
+            };
+            seq.push(item);
+        }
+        let break_at = if ctx.rng.chance(1, 4) {
+            json!(ctx.rng.range(1, len as u64))
+        } else { Value::Null };
+        res.push(json!({
+            "cmd": "server", "outcomes": seq, "break_at": break_at,
+            "limit": len as u64 + 3
+        }));
+    }
+    res
+}
+
+struct Parsed {
+    cmd: String,
+    outcomes: Vec<String>,
+    break_at: Option<u64>,
+    limit: u64,
+}
+
+fn parse(input: &Value) -> Option<Parsed> {
+    let cmd = input["cmd"].as_str()?.to_string();
+    command_args(&cmd)?;
+    let outcomes: Vec<String> = input["outcomes"].as_array()?.iter().map(|v| {
+        v.as_str().unwrap_or("ok").to_string()
+    }).collect();
+    if outcomes.is_empty()
+        || outcomes.iter().any(|o| !["ok", "retry", "fatal"].contains(&o.as_str()))
+    {
+        return None
+    }
+    let break_at = input["break_at"].as_u64();
+    let limit = input["limit"].as_u64()?;
+    if limit == 0 || limit > 40 { return None }
+    Some(Parsed { cmd, outcomes, break_at, limit })
+}
+
+fn letter(o: &str) -> &'static str {
+    match o { "ok" => "o", "retry" => "r", _ => "f" }
+}
+
+/// The property evaluated on what the real command did.
+fn oracle(p: &Parsed, obs: &Observed) -> Option<(String, String)> {
+    let server = p.cmd == "server";
+    let collector = !p.cmd.ends_with("-n");
+    let break_at = if collector { p.break_at } else { None };
+    // Outcomes of the runs that were performed. When the watchdog fired,
+    // the last `run-start` belongs to the run that was not performed.
+    let performed = if obs.exit == 99 { obs.runs.saturating_sub(1) } else { obs.runs };
+    let outs: Vec<String> = (0..performed).map(|i| {
+        effective(server, &p.outcomes, break_at, i)
+    }).collect();
+    if obs.exit == -2 {
+        return Some(("hang".into(), "command did not end within 60 s".into()))
+    }
+    if obs.exit < 0 || obs.exit > 3 && obs.exit != 99 {
+        return Some((
+            "abnormal-exit".into(),
+            format!("command ended abnormally (status {})", obs.exit)
+        ))
+    }
+    if !server {
+        if obs.exit == 99 {
+            return Some((
+                format!("{}-endless-retry", p.cmd),
+                format!(
+                    "{}: more than {} runs started; the command keeps \
+                     retrying a persistently failing run", p.cmd, p.limit
+                )
+            ))
+        }
+        if obs.runs > 2 {
+            return Some((
+                format!("{}-more-than-one-retry", p.cmd),
+                format!("{} runs performed by a one-shot command", obs.runs)
+            ))
+        }
+        if obs.runs == 0 {
+            return Some((
+                format!("{}-no-run", p.cmd), "no validation run".into()
+            ))
+        }
+        if !outs.iter().any(|o| o == "ok") && obs.exit == 0 {
+            return Some((
+                format!("{}-success-without-successful-run", p.cmd),
+                "exit status 0 although every run failed".into()
+            ))
+        }
+        // A retry is only allowed after a retryable failure.
+        if obs.runs == 2 && outs[0] != "retry" {
+            return Some((
+                format!("{}-rerun-without-retryable-failure", p.cmd),
+                format!("second run after a first run with outcome {}", outs[0])
+            ))
+        }
+        None
+    }
+    else {
+        // Failed runs after the initial run (index 0).
+        let failed: Vec<usize> = (1..outs.len()).filter(|&i| {
+            outs[i] != "ok"
+        }).collect();
+        // Every failed non-initial run that was followed by another run
+        // was retried.
+        let started = obs.runs;
+        let retried = failed.iter().filter(|&&i| i + 1 < started).count();
+        if retried > 1 {
+            return Some((
+                "server-more-than-one-retry".into(),
+                format!(
+                    "{retried} failed runs after the initial run were \
+                     followed by another run (outcomes {:?})", outs
+                )
+            ))
+        }
+        if let Some(i) = outs.iter().position(|o| o == "fatal") {
+            if i + 1 < started {
+                return Some((
+                    "server-continues-after-fatal".into(),
+                    format!("run {} failed fatally but run {} was started", i, i + 1)
+                ))
+            }
+        }
+        // Shut down at the latest with the second failed non-initial run /
+        // a fatal failure: then the exit status must be an error, not the
+        // watchdog's.
+        let must_stop = failed.len() >= 2 || outs.iter().any(|o| o == "fatal");
+        if must_stop && (obs.exit == 0 || obs.exit == 99) {
+            return Some((
+                "server-no-shutdown".into(),
+                format!("exit status {} after outcomes {:?}", obs.exit, outs)
+            ))
+        }
+        if obs.exit == 0 {
+            return Some((
+                "server-exit-0".into(),
+                "server ended with status 0 without being told to".into()
+            ))
+        }
+        None
+    }
+}
+
+pub fn run_c32(ctx: &mut Ctx) {
+    ctx.rule = "every sequence over {ok,retry,fatal} up to length 4 (quick) / 6 (thorough) as \
+        scripted run outcomes (last item repeats) for the real commands vrps, validate, update \
+        and server --refresh 0 run as child processes with zero TALs (-n variants up to length 3); \
+        plus variants where the RRDP working directory is removed at the start of run k so \
+        that sanitize() and proceeding runs fail for real; plus longer random server scripts. \
+        non-trivial = at least one failed run; distinct by (command, #runs, exit status, \
+        outcomes of the performed runs)".into();
+    let inputs: Vec<Value> = match ctx.replay_inputs() {
+        Some(inputs) => inputs,
+        None => generate(ctx),
+    };
+    let exe = std::env::current_exe().expect("current exe");
+
+    // Run the child processes on a few threads; record in input order.
+    let parsed: Vec<Option<Parsed>> = inputs.iter().map(parse).collect();
+    let results: Arc<Mutex<Vec<Option<Result<Observed, String>>>>> =
+        Arc::new(Mutex::new(vec![None; inputs.len()]));
+    let next = Arc::new(AtomicUsize::new(0));
+    let workers = std::thread::available_parallelism()
+        .map(|n| n.get()).unwrap_or(2).clamp(1, 12);
+    std::thread::scope(|scope| {
+        for _ in 0..workers {
+            let results = results.clone();
+            let next = next.clone();
+            let parsed = &parsed;
+            let exe = &exe;
+            scope.spawn(move || {
+                loop {
+                    let idx = next.fetch_add(1, Ordering::SeqCst);
+                    if idx >= parsed.len() { break }
+                    let Some(p) = parsed[idx].as_ref() else { continue };
+                    let collector = !p.cmd.ends_with("-n");
+                    let res = run_child(
+                        exe, &p.cmd, &p.outcomes,
+                        if collector { p.break_at } else { None }, p.limit
+                    );
+                    results.lock().unwrap()[idx] = Some(res);
+                }
+            });
+        }
+    });
+    let results = Arc::try_unwrap(results).unwrap().into_inner().unwrap();
+
+    for ((input, parsed), result) in inputs.iter().zip(parsed).zip(results) {
+        let Some(p) = parsed else {
+            ctx.count("bad-input");
+            ctx.case_oracle_only(input, "bad-input");
+            continue
+        };
+        let obs = match result {
+            Some(Ok(obs)) => obs,
+            Some(Err(err)) => {
+                ctx.count("harness-error");
+                ctx.case(input, "c32 harness-error", &format!("harness-error {err}"));
+                continue
+            }
+            None => continue
+        };
+        let collector = !p.cmd.ends_with("-n");
+        let op = format!(
+            "c32 {} {} {} {}",
+            p.cmd, p.limit,
+            match p.break_at {
+                Some(k) if collector => k.to_string(),
+                _ => "-".into()
+            },
+            p.outcomes.iter().map(|o| letter(o)).collect::<Vec<_>>().join("")
+        );
+        let imp = format!("runs={} exit={}", obs.runs, obs.exit);
+        ctx.case(input, &op, &imp);
+        ctx.count(&format!("{}:exit={}", p.cmd, obs.exit));
+        ctx.count(&format!("{}:runs={}", p.cmd, obs.runs));
+        let performed: Vec<String> = (0..obs.runs).map(|i| {
+            letter(&effective(
+                p.cmd == "server", &p.outcomes,
+                if collector { p.break_at } else { None }, i
+            )).to_string()
+        }).collect();
+        if performed.iter().any(|o| o != "o") {
+            ctx.nontrivial(format!(
+                "{}/{}/{}/{}", p.cmd, obs.runs, obs.exit, performed.join("")
+            ));
+        }
+        if let Some((class, reason)) = oracle(&p, &obs) {
+            ctx.oracle_fail(&class, &reason, input, json!({
+                "runs": obs.runs, "exit": obs.exit, "stderr": obs.stderr
+            }));
+        }
+    }
+}
